@@ -10,8 +10,8 @@ HARNESSES = {
 BOUNDS = {
     'NormalizeGen/NormalizeMD': 'bit exact: every verb letter and operand count, arbitrary float32 operands and transform parameters',
     'Concat': 'exact-real reading, arbitrary matrices',
-    'SetPathData': '"M n n <verb> n.. [n.. implicit repeat] z" for each of the 18 verb letters, 4 number forms (d, -d, d.d, .d), the first `digits` digits arbitrary (quick 2, thorough 4)',
-    'ParsePathData': '"M n n <verb> n.. [n.. repeat] [zM n n] z" for 14 verbs, 3 number forms, the first `digits` digits arbitrary (quick 4, thorough 12), symbolic outSize and x offset',
+    'SetPathData': '"M n n <verb> n.. [n.. implicit repeat] z" for each of the 18 verb letters, 4 number forms (d, -d, d.d, .d), optionally the second operand written compactly as .d right after a number with a dot, the first `digits` digits arbitrary (quick 2, thorough 4)',
+    'ParsePathData': '"M n n <verb> n.. [n.. repeat] [zM n n] z" for 14 verbs, 3 number forms, optionally the second operand written compactly as .d right after d.d, the first `digits` digits arbitrary (quick 4, thorough 12), symbolic outSize and x offset',
     'Retransform': 'four fixed paths covering every verb class, arbitrary float32 scale/translate before and after; relational against a fresh Generator',
     'ParsePath': 'three paths with opacities 0.5, 0.25, 0.5 and one circle with symbolic position/radius',
 }
